@@ -106,6 +106,21 @@ fn run<T: Scalar>(spec: &Spec, xs: &[f64], ys: &[f64], rng: &mut Rng, out: &mut 
         }
         reference.push(rb);
     }
+    // --- "any number of times" includes zero: a twin that is polled only now and then -------------
+    {
+        let mut c = build_plain::<T>(spec);
+        for i in 0..len {
+            c.update(T::of(xs[i]));
+            if rng.chance(1, 3) || i + 1 == len {
+                let r = c.last();
+                out.cell("clause/last-pure", 1);
+                if !same_opt(r, reference[i]) {
+                    fail(out, spec, "last-pure", i, r, reference[i], xs, "instance polled only at some steps vs twin polled after every update");
+                    return;
+                }
+            }
+        }
+    }
     // --- clone independence -----------------------------------------------------------------
     if !spec.contains_add() {
         // a third of the clones is taken while the view is still warming up (or fresh)
@@ -287,7 +302,7 @@ impl Monitor for C17 {
         names
     }
     fn rule(&self) -> String {
-        "trial = one view or random chain (depth<=3) and one seeded stream: (1) instance A queried with 0..3 extra last() calls per step vs twin B queried once, (2) clone taken at a random step, clone fed a different continuation (three interleavings) while the original must keep matching a never-cloned twin, clone-of-clone fed the same continuation must match too, diverged clone must equal a fresh instance with the same total history, (3) a twin driven concurrently on another thread; all comparisons to_bits. distinct = distinct (tree, input hash)".into()
+        "trial = one view or random chain (depth<=3) and one seeded stream: (1) instance A queried with 0..3 extra last() calls per step vs twin B queried once, and an instance polled at only a third of the steps vs B, (2) clone taken at a random step, clone fed a different continuation (three interleavings) while the original must keep matching a never-cloned twin, clone-of-clone fed the same continuation must match too, diverged clone must equal a fresh instance with the same total history, (3) a twin driven concurrently on another thread; all comparisons to_bits. distinct = distinct (tree, input hash)".into()
     }
     fn assumptions(&self) -> Vec<String> {
         vec!["Add does not derive Clone: the clone clause is vacuous for trees containing Add (counted)".into()]
